@@ -282,9 +282,13 @@ func (r *Run) Finish() {
 		"coverage": cov, "assumptions": r.assumptions,
 		"wall_s": time.Since(r.start).Seconds(), "violations": nviol,
 	}
-	os.MkdirAll(filepath.Join(root, "evidence"), 0o755)
+	evDir := filepath.Join(root, "evidence")
+	if d := os.Getenv("VERIF_EVIDENCE_DIR"); d != "" {
+		evDir = d // debug runs (scenario filter, seeded changes) must not overwrite the evidence of full runs
+	}
+	os.MkdirAll(evDir, 0o755)
 	b, _ := json.MarshalIndent(ev, "", " ")
-	os.WriteFile(filepath.Join(root, "evidence", r.Prop+".json"), b, 0o644)
+	os.WriteFile(filepath.Join(evDir, r.Prop+".json"), b, 0o644)
 	for _, l := range lines {
 		fmt.Println(l)
 	}
